@@ -3,10 +3,11 @@ C03, extension 2 — the SAME-AMOUNT comparison with the ideal curve, as theorem
 
 `Spec/CLCurve.lean` defines the exact piecewise constant-liquidity curve walked through a list of initialised ticks in
 exact rational arithmetic: `idealOut zfo ahead K P x` = amount out for the amount in `x` (net of the spread factor) from
-sqrt price `P` in a bucket of liquidity `K`, crossing the ticks `ahead` (each with its sqrt price and net liquidity);
-`idealIn zfo ahead K P y` = amount in needed for the amount out `y`.  For a pool state `p` and direction `zfo` the walk
-starts at `p.sqrtPrice` with `p.liquidity` over the pool's own initialised ticks ahead of `p.tick`
-(`poolIdealOut p zfo x`, `poolIdealIn p zfo y`; units: amounts raw 18-decimal, 10^18 = one token).
+sqrt price `P` in a bucket of liquidity `K`, crossing the ticks `ahead` (each with its sqrt price and net liquidity).  For a
+pool state `p` and direction `zfo` the walk starts at `p.sqrtPrice` with `p.liquidity` over the pool's own initialised ticks
+ahead of `p.tick` (`poolIdealOut p zfo x`; units: amounts raw 18-decimal, 10^18 = one token).  The ideal amount IN for an
+amount out `y` is the generalised inverse of the monotone `idealOut` (`x ≥ ideal_in(y)` iff `idealOut x ≥ y`); the exact-out
+statements are given in that form.
 
 Proved for every state satisfying the C07 invariant (every reachable state), every price limit, both directions:
 * the walk is well-formed (`ideal_walk_wellformed`) and the ideal curve is monotone (`ideal_out_monotone`);
